@@ -25,6 +25,8 @@ func checkC11(p *Prog, r *Report) {
 	c03Session(p, r, p.SSA(), "C11.R5")
 	// a run must see its own files: the session cache hands out the bytes of exactly the path asked for (shared with C03.R2c)
 	c03PoolKey(p, r, "C11.R6")
+	// "gaps in weather data fail only that line": the gap test of the date-keyed readers must see gaps at a year end too (shared with C04.R2c, without its coverage clause, which is the known roll-over finding)
+	c04Carried(p, r, "C11.R7", false)
 }
 
 // runReachableDecls maps the CHA run-reachable slice back to declarations.
